@@ -10,8 +10,8 @@ package policy
 //vx:redirect (*github.com/openbao/openbao/v2/internal/vault/policy.ControlGroup).Clone vxCGClone
 //vx:redirect github.com/openbao/openbao/v2/internal/vault/policy.addGrantingPoliciesToMap vxGranting
 //vx:unwind 400
-//vx:param pathLen quick=4 thorough=6
-//vx:param nrules quick=2 thorough=3
+//vx:param pathLen quick=4 thorough=5
+//vx:param nrules quick=2 thorough=2
 //vx:maxpaths quick=0 thorough=0
 
 import (
